@@ -450,7 +450,7 @@ func genPromQLHistory(r *rand.Rand, quick bool) *plan.Plan {
 		}
 		return ops
 	}
-	inc := plan.Incarnation{Boot: "full", SchedSeed: r.Uint64() | 1}
+	inc := plan.Incarnation{Boot: "full", SchedSeed: r.Uint64()>>11 | 1}
 	var evs []json.RawMessage
 	flushRound := func(last bool) {
 		if len(evs) == 0 {
@@ -470,7 +470,7 @@ func genPromQLHistory(r *rand.Rand, quick bool) *plan.Plan {
 		case x < 7 && !last:
 			inc.Ops = append(inc.Ops, plan.Op{Kind: "shutdown"})
 			p.Incs = append(p.Incs, inc)
-			inc = plan.Incarnation{Boot: "full", SchedSeed: r.Uint64() | 1}
+			inc = plan.Incarnation{Boot: "full", SchedSeed: r.Uint64()>>11 | 1}
 			inc.Ops = append(inc.Ops, genQueries()...)
 		}
 	}
